@@ -159,6 +159,13 @@ func evalNameArray(node *jparse.NameNode, data reflect.Value, env *environment) 
 			return undefined, err
 		}
 
+		// A nested array yields a sequence of its own. Merge its
+		// items into the results instead of nesting the sequence.
+		if seq, ok := asSequence(v); ok {
+			results.values = append(results.values, seq.values...)
+			continue
+		}
+
 		if v.IsValid() && v.CanInterface() {
 			results.Append(v.Interface())
 		}
